@@ -91,7 +91,8 @@ def run(ctx):
     alt_texts = sorted(set(alt_texts) - set(texts))
     # ---- token-level corruptions of grammar-covering programs (TLC: one delete / duplicate / swap at every position) + truncation at every offset
     progs = gramfam.family("quick", rnd)
-    progs = rnd.sample(progs, 14 if quick else 60)
+    progs = [p_ for p_ in progs if p_.get("tag") == "one-statement-bodies"] + rnd.sample(progs, 14 if quick else 60)
+    progs = list({p_["id"]: p_ for p_ in progs}.values())
     for i, p in enumerate(progs): p["id"] = i + 1
     pf = os.path.join(ctx.scratch, "progs-mut.ndjson")
     import c03
